@@ -11,7 +11,7 @@ from engine import tlc, core, tracecheck
 
 CLASS_OF = {"OK": "ok", "HANDLER_RAISES": "raises", "BAD_VERSION": "bad", "TYPE_UNKNOWN": "bad", "TYPE_WRONG_DIR": "tolerable",
             "LEN_LT_8": "nolen", "LEN_LT_NEEDED": "badlen", "LEN_GT_ACTUAL": "badlen",
-            "INNER_LEN_BAD": "tolerable", "TRUNCATED": "partial"}
+            "INNER_LEN_BAD": "tolerable", "TRUNCATED": "partial", "MUTATED": "junk", "RANDOM": "junk"}
 
 
 def drive(sc):
@@ -73,9 +73,15 @@ def drive(sc):
           nerr = sum(1 for m in rb.parse_stream(o["wrote"][x]) if m["type"] == rb.ERROR)
         except rb.ParseError:
           nerr = 1
+        junk = (cls[x].index("junk") + 1) if "junk" in cls[x] else None
         for (t, xid, raw) in o["new"][x]:
+          if junk and nxt[x] > junk:           # framing was given up at the junk message: anything goes
+            events.append({"e": "garbage", "c": x, "k": 0, "i": 0})
+            continue
           idx = xid2idx[x].get(xid, 0)
-          if idx and idx >= nxt[x] and idx <= fed[x]:
+          if junk and nxt[x] == junk and fed[x] >= junk and (idx == 0 or idx >= junk):
+            idx = junk                          # whatever came out of the junk bytes counts as its delivery
+          elif idx and idx >= nxt[x] and idx <= fed[x]:
             orig = msgs[x][idx - 1]
             if cls[x][idx - 1] in ("ok", "raises"):
               # the delivered object must be the message that was sent: exact bytes for body-less / opaque-body
@@ -101,13 +107,13 @@ def drive(sc):
           isopen[x] = False
           events.append({"e": "close", "c": x, "k": 0, "i": 0})
         elif isopen[x]:
-          while nxt[x] <= fed[x] and nerr > 0:     # error replies answer the next unresolved messages
-            nerr -= 1
+          while nxt[x] <= fed[x] and nerr > 0 and not (junk and nxt[x] > junk):
+            nerr -= 1                  # error replies answer the next unresolved messages
             events.append({"e": "error", "c": x, "k": 0, "i": nxt[x]})
             nxt[x] += 1
           if o["residual"][x] == 0:
-            while nxt[x] <= fed[x]:      # consumed without delivery and without reply: skipped quietly
-              events.append({"e": "skipq", "c": x, "k": 0, "i": nxt[x]})
+            while nxt[x] <= fed[x] and not (junk and nxt[x] > junk):
+              events.append({"e": "skipq", "c": x, "k": 0, "i": nxt[x]})   # consumed, no delivery, no reply
               nxt[x] += 1
           for _ in range(nerr):
             events.append({"e": "garbage", "c": x, "k": 0, "i": 0})
@@ -140,6 +146,15 @@ def scenarios(quick, rnd):
               continue
             for plan in ("batch", "single", "split"):
               out.append((side, kind, fault, param, pos, la, plan))
+  # random mutations of valid messages and fully random byte strings (containment only)
+  nfuzz = 40 if quick else 600
+  for side in ("ctl", "sw"):
+    for kind in L.KINDS[side]:
+      for j in range(nfuzz // 8):
+        prm = rnd.randrange(1 << 20)
+        out.append((side, kind, "MUTATED", prm, 2, 3, ("batch", "single")[j % 2]))
+    for j in range(nfuzz):
+      out.append((side, "echo", "RANDOM", rnd.randrange(1 << 20), 1 + j % 2, 2, ("batch", "single", "split")[j % 3]))
   # all-ok control scenarios
   for side in ("ctl", "sw"):
     for plan in ("batch", "single"):
